@@ -16,3 +16,10 @@ Theorem C02_bounded_segment_refused :
   powerlaw_valid (O:=F_ops) w_exp w_slope w_scale w_lower w_upper = Err ValueError.
 Proof. exact bounded_segment_refused. Qed.
 Print Assumptions C02_bounded_segment_refused.
+
+Theorem C09_concave_segment_refuted_float :
+  powerlaw_valid (O:=F_ops) c_exp c_slope c_scale c_lower c_upper = Ok tt /\
+  PrimFloat.leb c_lower c_m = true /\ PrimFloat.leb c_m c_upper = true /\
+  PrimFloat.ltb c_m (line (O:=F_ops) c_m c_exp c_slope c_scale) = true.
+Proof. exact concave_segment_refuted_float. Qed.
+Print Assumptions C09_concave_segment_refuted_float.
